@@ -154,12 +154,13 @@ struct BlendRowMaskClip;
 
 fn blend_row_mask_clip<T: blend::Blend>(src: &[u32], mask: &[u8], clip: &[u8], dst: &mut [u32]) {
     for (((dst, src), mask), clip) in dst.iter_mut().zip(src).zip(mask).zip(clip) {
-        if *mask != 0 && *clip != 0 {
-            *dst = alpha_lerp(
+        // alpha_lerp() never reaches a weight of 256, so compute the combined coverage here
+        let coverage = muldiv255(*mask as u32, *clip as u32);
+        if coverage != 0 {
+            *dst = lerp(
                 *dst,
                 T::blend(*src, *dst),
-                *mask as u32,
-                *clip as u32
+                alpha_to_alpha256(coverage),
             );
         }
     }
